@@ -24,4 +24,20 @@ theorem presets_names : presets.map (·.1) =
     ["DiagNutsSettings", "LowRankNutsSettings", "FlowNutsSettings", "DiagMclmcSettings", "LowRankMclmcSettings", "FlowMclmcSettings"] := by
   decide
 
+/-- **C19 / the stored settings identify the run**: two conforming values of a settings type with the
+    same JSON are the same value (the encoder loses nothing: no two distinct settings are recorded
+    alike). Corollary of the round trip. -/
+theorem settings_json_injective (name : String) (ty : STy) (hp : (name, ty) ∈ presets) (v w : SVal)
+    (hv : conforms ty v = true) (hw : conforms ty w = true) (h : toJson v = toJson w) : v = w := by
+  have a := settings_roundtrip name ty hp v hv
+  have b := settings_roundtrip name ty hp w hw
+  rw [h, b] at a
+  exact (Option.some.inj a).symm
+
+/-- decoding is deterministic and total on encoder output: the decoded value re-encodes to the
+    same JSON (encode ∘ decode ∘ encode = encode). -/
+theorem settings_reencode (name : String) (ty : STy) (hp : (name, ty) ∈ presets) (v : SVal)
+    (hv : conforms ty v = true) : (fromJson ty (toJson v)).map toJson = some (toJson v) := by
+  rw [settings_roundtrip name ty hp v hv]; rfl
+
 end NutsModel.C19
